@@ -1,4 +1,6 @@
 import Nstd.Codec.LemmasUtf8
+import Nstd.Codec.LemmasStr
+import Nstd.Codec.LemmasInt
 /-!
   Property C18 — text codecs and numeric conversions are exact inverses and bounds-safe.
   Only the property theorems (and non-vacuity examples); every `theorem` here is an
@@ -55,5 +57,87 @@ example : isValid [0xF0, 0x9F, 0x98, 0x80, 0x41] 5 = .ok true := by
   simp [isValid, isValidLoop, rdR, rd, utf8Length]
 example : isValid [0xF0, 0x9F, 0x98] 3 = .ok false := by simp [isValid, isValidLoop, rdR, rd, utf8Length]  -- truncated: rejected without reading on
 example : toString 0x20AC = [0xE2, 0x82, 0xAC] := by decide
+
+/-! ## fromHex -/
+
+/-- `String::fromHex` of EVERY byte string is its upper-case hexadecimal text (two digits per byte,
+    high nibble first); both alphabet reads stay inside the 16-entry alphabet. -/
+theorem hex_upper (bs : List UInt8) :
+    fromHex (bs.map UInt8.toNat) = .ok (Spec.upperHex (bs.map UInt8.toNat)) := by
+  apply fromHex_upper
+  intro b hb
+  obtain ⟨x, _, rfl⟩ := List.mem_map.mp hb
+  exact x.toNat_lt
+
+example : fromHex [0x00, 0xFF, 0x1A] = .ok [48, 48, 70, 70, 49, 65] := by decide   -- "00FF1A"
+
+/-! ## fromBase64 -/
+
+/-- `String::fromBase64` returns the original bytes for the RFC 4648 encoding (with padding) of EVERY
+    byte string. -/
+theorem base64_decodes_rfc4648 (bs : List UInt8) :
+    fromBase64 (Spec.rfc4648Encode (bs.map UInt8.toNat)) = .ok (bs.map UInt8.toNat) := by
+  apply fromBase64_rfc
+  intro b hb
+  obtain ⟨x, _, rfl⟩ := List.mem_map.mp hb
+  exact x.toNat_lt
+
+/-- For EVERY input (arbitrary bytes, arbitrary length) `fromBase64` reads its decode table only at
+    indices below the table size and writes its output only inside the reserved buffer.
+    (This is defect D26: with the signed comparison `in[i] > 'z'` the generated guard lets bytes
+    >= 0x80 through and this theorem does not check.) -/
+theorem base64_no_oob (inp : List Nat) : fromBase64 inp ≠ .oob := by
+  obtain ⟨r, hr⟩ := fromBase64_ok inp
+  rw [hr]; intro h; cases h
+
+/-- the table-index part of `base64_no_oob` on its own: a byte that passes the guard indexes below 123 -/
+theorem base64_index_lt_table (b : Nat) (h : ¬ (base64GuardOperand b > base64GuardLimit)) :
+    0 ≤ base64Index b ∧ (base64Index b).toNat < base64de.length := by
+  unfold base64GuardOperand base64GuardLimit at h
+  unfold base64Index
+  rw [b64_table_len]
+  omega
+
+example : Spec.rfc4648Encode [0x66, 0x6F] = [90, 109, 56, 61] := by decide           -- "fo" -> "Zm8="
+example : fromBase64 [90, 109, 56, 61] = .ok [0x66, 0x6F] := by decide
+example : fromBase64 [0xFF, 0xFF, 0xFF, 0xFF] = .ok [] := by decide                   -- D26 input: rejected, no fault
+example : fromBase64 [123, 65, 65, 65] = .ok [] := by decide                          -- '{' = 'z' + 1
+
+/-! ## integer conversions (relative to the libc behaviour stated in Model.lean) -/
+
+/-- `String::printf` yields the formatted text whatever the capacity of the first buffer is -/
+theorem printf_text (cap : Nat) (text : List Nat) : printf cap text = text := printf_eq cap text
+
+/-- the digits `%u`/`%llu` are assumed to print are the decimal numeral of the value -/
+theorem decimal_text_value (n : Nat) : Spec.decimalValue (decDigits n) = n := by
+  unfold Spec.decimalValue
+  rw [decimalValue_decDigits_aux, shiftIn_zero]
+
+/-- `toInt(fromInt(v)) = v` for every `int` -/
+theorem int_roundtrip_int (v : Int) (h1 : -2147483648 ≤ v) (h2 : v ≤ 2147483647) : toInt (fromInt v) = v := by
+  unfold toInt fromInt atoi strtol
+  rw [printf_eq, strtoll_fmt v (by omega) (by omega)]
+  unfold wrapInt32
+  omega
+
+/-- `toUInt(fromUInt(v)) = v` for every `uint` -/
+theorem int_roundtrip_uint (v : Nat) (h : v ≤ 4294967295) : toUInt (fromUInt v) = v := by
+  unfold toUInt fromUInt strtoul
+  rw [printf_eq, strtoull_dec v (by omega)]
+  omega
+
+/-- `toInt64(fromInt64(v)) = v` for every `int64` -/
+theorem int_roundtrip_int64 (v : Int) (h1 : -9223372036854775808 ≤ v) (h2 : v ≤ 9223372036854775807) :
+    toInt64 (fromInt64 v) = v := by
+  unfold toInt64 fromInt64 atoll
+  rw [printf_eq, strtoll_fmt v h1 h2]
+
+/-- `toUInt64(fromUInt64(v)) = v` for every `uint64` -/
+theorem int_roundtrip_uint64 (v : Nat) (h : v ≤ 18446744073709551615) : toUInt64 (fromUInt64 v) = v := by
+  unfold toUInt64 fromUInt64
+  rw [printf_eq, strtoull_dec v h]
+
+example : fromInt (-2147483648) = [45, 50, 49, 52, 55, 52, 56, 51, 54, 52, 56] := by
+  simp [fromInt, printf_eq, fmtSigned, decDigits]
 
 end Nstd.Codec
